@@ -512,6 +512,10 @@ pub fn compute_id_secret(share1: (Fr, Fr), share2: (Fr, Fr)) -> Result<Fr, Strin
     // If the two input shares were computed for the same external_nullifier and identity secret, we can recover the latter
     // y1 = a_0 + x1 * a_1
     // y2 = a_0 + x2 * a_1
+    // The two shares must have different x coordinates, otherwise the slope is undefined
+    if x1 == x2 {
+        return Err("shares with the same x coordinate cannot be interpolated".to_string());
+    }
     let a_1 = (y1 - y2) / (x1 - x2);
     let a_0 = y1 - x1 * a_1;
 
